@@ -100,3 +100,21 @@ def restore(target: tuple) -> None:
                 fh.write(c)
     os.chdir(r)
     _CACHE = target
+
+
+def remove_for_pids(pids) -> None:
+    for pid in pids:
+        for base in ("/dev/shm", "/tmp"):
+            shutil.rmtree(os.path.join(base, f"xmc-{pid}"), ignore_errors=True)
+
+
+def remove_stale() -> None:
+    """Sandboxes of processes that no longer exist (killed runs)."""
+    for base in ("/dev/shm", "/tmp"):
+        try:
+            names = os.listdir(base)
+        except OSError:
+            continue
+        for n in names:
+            if n.startswith("xmc-") and n[4:].isdigit() and not os.path.exists(f"/proc/{n[4:]}"):
+                shutil.rmtree(os.path.join(base, n), ignore_errors=True)
